@@ -191,6 +191,9 @@ pub struct World {
     last_stream_host: Option<usize>,
     redeliver: Vec<(usize, Vec<u8>, Option<Truth>)>,
     pub record_to_thread_local: bool,
+    completed_keys: std::collections::BTreeSet<Key>,
+    evicted_keys: std::collections::BTreeSet<Key>,
+    sent_keys: std::collections::BTreeSet<Key>,
 }
 
 pub const MAX_EVENTS: usize = 4_000;
@@ -354,6 +357,9 @@ impl World {
             last_stream_host: None,
             redeliver: Vec::new(),
             record_to_thread_local: false,
+            completed_keys: Default::default(),
+            evicted_keys: Default::default(),
+            sent_keys: Default::default(),
         };
         world.plan(seed);
         world
@@ -504,6 +510,19 @@ impl World {
     fn send_datagram(&mut self, idx: usize, stats: &mut Stats, in_heal: bool) {
         let d = self.datagrams[idx].clone();
         let faults_on = !in_heal;
+        {
+            let k = key_of(&self.hosts[d.host], d.id, d.proto);
+            if !in_heal && !self.sent_keys.insert(k.clone()) {
+                stats.inc("fault_fired.identification_reuse");
+                if self.completed_keys.contains(&k) {
+                    stats.inc("probe.id_reuse_after_completion");
+                } else if self.evicted_keys.contains(&k) {
+                    stats.inc("probe.id_reuse_after_eviction");
+                } else {
+                    stats.inc("probe.id_reuse_while_stream_in_flight");
+                }
+            }
+        }
         let max_frag = 65_535 - (ip_header_len(&self.hosts[d.host]) - if self.hosts[d.host].v6 { 40 } else { 0 });
         let frags = cut(d.payload.len(), self.cfg.max_frags, max_frag, &mut self.wl);
         let mut list: Vec<Frag> = frags
@@ -585,11 +604,31 @@ impl World {
         if self.record_to_thread_local {
             super::note_op(&op);
         }
+        if crate::runner::tracing() {
+            // crashes cannot be caught: the parent assembles the history
+            crate::runner::announce_op(&op.to_json());
+        }
         let r = self.exec.apply(&op);
         self.ops.push(op);
         match r {
             Ok(info) => {
                 tally(stats, &info);
+                if let Some(k) = &info.key {
+                    if info.new_stream && info.error.is_none() && !info.alloc_failed {
+                        if self.completed_keys.contains(k) {
+                            stats.inc("probe.fragment_after_completion_opens_new_stream");
+                        }
+                        if self.evicted_keys.contains(k) {
+                            stats.inc("probe.fragment_after_eviction_opens_new_stream");
+                        }
+                    }
+                    if info.completed.is_some() {
+                        self.completed_keys.insert(k.clone());
+                    }
+                }
+                for k in &info.evicted_keys {
+                    self.evicted_keys.insert(k.clone());
+                }
                 Ok(info)
             }
             Err(f) => Err((self.ops.len() - 1, f)),
@@ -864,6 +903,17 @@ pub fn tally(stats: &mut Stats, i: &StepInfo) {
                 if i.recycled_larger {
                     stats.inc("probe.recycled_buffer_larger_than_datagram");
                 }
+            }
+            if let Some(c) = i.conflict_shape {
+                if i.error == Some("conflicting_end") {
+                    stats.inc(&format!("probe.conflicting_end_{c}"));
+                }
+            }
+            if i.grew {
+                stats.inc("probe.stream_grew_beyond_initial_capacity");
+            }
+            if let Some(d) = i.sibling_dim {
+                stats.inc(&format!("probe.active_streams_differ_only_in_{d}"));
             }
             if let Some(e) = i.error {
                 stats.inc(&format!("probe.error_{e}"));
